@@ -26,8 +26,8 @@ func (pass *AddObject) processSchema(visitor *Visitor, schema *ast.Schema) (*ast
 		return schema, nil
 	}
 
-	newObject := ast.NewObject(pass.Object.Package, pass.Object.Object, pass.As)
-	newObject.Comments = pass.Comments
+	newObject := ast.NewObject(pass.Object.Package, pass.Object.Object, pass.As.DeepCopy())
+	newObject.Comments = append([]string(nil), pass.Comments...)
 	newObject.AddToPassesTrail("AddObject[created]")
 
 	visitor.RegisterNewObject(newObject)
